@@ -17,9 +17,14 @@ EXTENDS Integers, Sequences, FiniteSets, TLC, Json, IOUtils, SequencesExt
 
 CONSTANTS RethrowUnmatched,   \* TRUE: handle_exception rethrows when no clause accepted the exception
           FinallyAlways,      \* TRUE: the finally block also runs when a catch block throws or returns
-          ObjectMatch         \* TRUE: a typed clause is taken only if the object converts to the clause type
+          ObjectMatch,        \* TRUE: a typed clause is taken only if the object converts to the clause type
+          ObjectMatchValues   \* TRUE: ... also for values thrown by script (boxed by value); FALSE models the regression
+                              \*       "only exceptions boxed by reference get the object-level test"
 
-Kinds == {"int", "string", "rt", "oor", "logic", "badcast", "ee", "user"}
+\* thrown by C++ functions: rt oor logic badcast ee user;  thrown by script as VALUES: int string, srt = runtime_error("x"),
+\* sbase / sder = the registered C++ pair BaseC / DerivedC (base_class<BaseC, DerivedC>), dyn = an instance of the script class MyErr
+Kinds == {"int", "string", "rt", "oor", "logic", "badcast", "ee", "user", "srt", "sbase", "sder", "dyn"}
+ByValue == {"int", "string", "srt", "sbase", "sder", "dyn"}
 \* dynamic type and its registered supertypes (bootstrap.hpp registers exactly these base_class relations)
 Super == [k \in Kinds |->
    CASE k = "int" -> {"int"} [] k = "string" -> {"string"}
@@ -28,8 +33,11 @@ Super == [k \in Kinds |->
      [] k = "logic" -> {"logic_error", "exception"}
      [] k = "badcast" -> {"exception"}
      [] k = "ee" -> {"eval_error", "runtime_error", "exception"}
-     [] k = "user" -> {}]
-ClauseTypes == {"", "int", "string", "runtime_error", "out_of_range", "logic_error", "exception", "eval_error"}
+     [] k = "user" -> {}
+     [] k = "srt" -> {"runtime_error", "exception"}
+     [] k = "sbase" -> {"BaseC"} [] k = "sder" -> {"DerivedC", "BaseC"}
+     [] k = "dyn" -> {"MyErr"}]
+ClauseTypes == {"", "int", "string", "runtime_error", "out_of_range", "logic_error", "exception", "eval_error", "BaseC", "DerivedC", "MyErr"}
 
 \* statements: mark n | throw kind | ret | try
 Mark(n) == [k |-> "mark", n |-> n, x |-> "", body |-> <<>>, cl |-> <<>>, fin |-> <<>>, hasfin |-> FALSE]
@@ -73,16 +81,18 @@ Ref(prog) == RefSeq(prog, 1, [out |-> <<>>, esc |-> "none"])
 \* which C++ catch arm takes the exception and which static type the boxed reference gets
 StaticType(kind) == CASE kind = "ee" -> "eval_error" [] kind = "rt" -> "runtime_error" [] kind = "oor" -> "out_of_range"
                       [] kind \in {"logic", "badcast"} -> "exception" [] kind = "int" -> "int" [] kind = "string" -> "string"
+                      [] kind = "srt" -> "runtime_error" [] kind = "sbase" -> "BaseC" [] kind = "sder" -> "DerivedC" [] kind = "dyn" -> "MyErr"
                       [] OTHER -> "?"                                  \* catch (...) arm: not boxed at all
 \* registered base_class pairs (bidirectional dynamic conversions)
 Related == {<<"exception", "logic_error">>, <<"logic_error", "out_of_range">>, <<"exception", "out_of_range">>,
-            <<"exception", "runtime_error">>, <<"runtime_error", "eval_error">>, <<"exception", "eval_error">>}
+            <<"exception", "runtime_error">>, <<"runtime_error", "eval_error">>, <<"exception", "eval_error">>, <<"BaseC", "DerivedC">>}
 TypesRelated(a, b) == <<a, b>> \in Related \/ <<b, a>> \in Related
 ImplMatches(kind, ty) ==
   LET s == StaticType(kind) IN
   \/ ty = ""
   \/ ty = s
-  \/ (TypesRelated(s, ty) /\ (ObjectMatch => ty \in Super[kind]))     \* match() on the type pair; the repair also converts the object
+  \/ (TypesRelated(s, ty) /\ ((ObjectMatch /\ (kind \notin ByValue \/ ObjectMatchValues)) => ty \in Super[kind]))
+       \* match() on the type pair; the repair also converts the object
 
 RECURSIVE ImplSeq(_, _, _), ImplStmt(_, _), ImplClauses(_, _, _, _)
 ImplSeq(stmts, i, acc) ==
